@@ -12,20 +12,24 @@ PROP = "C19"
 DRIVER = "c19"
 MODEL = "C19"
 MODEL_QUALID = "Model.Chaos.run_script"
-FORMAT = ("script [flags: bit0 0=NoErrorInjection 1=CustomErrorFn, bits1-3 builder route (0 error_fn().error_rate(), "
+FORMAT = ("script [flags: bit0 0=NoErrorInjection 1=CustomErrorFn, bits1-4 builder route (0 error_fn().error_rate(), "
           "1 error_rate().error_fn(), 2 all setters on ChaosConfigBuilderWithRate, 3 all setters after error_fn, "
-          "4-7 mixed orders / overwritten values); error_rate f64 bits; latency_rate f64 bits; min_latency; max_latency "
+          "4-7 mixed orders / overwritten values, 8-15 error_fn() called two or three times = the error function replaced "
+          "before/after/between error_rate() calls); error_rate f64 bits; latency_rate f64 bits; min_latency; max_latency "
           "(v < 2^64: microseconds, v >= 2^64: v-2^64 nanoseconds); seed; tail_ms; n; (gap_ms, ik: bit0 inner 0 ok/1 err, "
           "bits1-2 first poll 0 at once/1 deferred past the next polled request/2,3 dropped unpolled, bits3.. ms the inner "
           "service takes; inner_val)*n] (model input = script ++ draw values logged by the implementation) -> "
-          "trace [repro: bit0 two equally seeded instances driven in lock-step gave equal outcomes, bit1 equal draw logs; "
+          "trace [repro: bit0 two equally seeded instances driven in lock-step gave equal outcomes, bit1 equal draw logs, bit2 a "
+          "third equally seeded instance built later and driven with other gaps and the opposite inner outcomes (same order, "
+          "same first-poll discipline) made the same decisions; "
           "per request 15 ints: n_log, k0, k1, k2 (logged draw kinds 0 error roll/1 latency roll/2 delay, -1 pad), "
           "listener events error, latency, pass, reported delay ms (-1), inner_called, t_call, t_poll (-1 never), "
           "t_inner (-1), res_kind (0 Ok 1 Err -1 pending), res_val, t_done (-1); n_draws; draw values]")
 RULE = ("random configurations: rates from {0, -0, 1, 1/2, 2^-53, 2^-54, subnormal, 1-2^-53, >1, inf, negative, NaN, "
         "random in [0,1]} x latency bounds (min<max, min=max, min>max, same millisecond, zero, sub-millisecond, 40 ms..3 s, "
-        "2^32+-1 ms, 49.7 days, u64::MAX ms, 2^64 ms and more (saturated), Duration::MAX) x 8 builder routes x random and special seeds x 1..12 "
-        "overlapping requests with ok/err/slow inner outcomes, polled at once / deferred (first polls out of call "
+        "2^32+-1 ms, 49.7 days, u64::MAX ms, 2^64 ms and more (saturated), Duration::MAX) x 16 builder routes (8 of them replace the "
+        "error function) x random and special seeds x 1..12 overlapping requests (and a class of 50-300 requests per instance) "
+        " with ok/err/slow inner outcomes, polled at once / deferred (first polls out of call "
         "order) / dropped unpolled; the draw stream is the implementation's own log (oracle); rates exactly equal to / "
         "one ulp around the first roll of the seed; non-trivial = at least one error or latency injected")
 TRUSTED = ["verif hook in /repo (feature verif-hooks): log_draw(kind, bits) after each RNG draw in chaos/src/service.rs",
@@ -83,6 +87,19 @@ REPRODUCERS_37727a1 = [
 ]
 U64_MAX = T64 - 1
 
+# Reproducers of the defect fixed in /repo by 7904406 (found by the second review): ChaosConfigBuilder::error_fn always
+# built CustomErrorFn::new(f, 0.0); called on a builder that already had a rate (error_rate(1.0).error_fn(a).error_fn(b))
+# it silently reset the error rate to 0, so a layer configured with error rate 1 let every call through. Routes 8-15
+# of the harness replace the error function; seeded/C19-r5 is the reverse of the fix.
+REPRODUCERS_7904406 = [
+    # route 8 = error_rate(1.0).error_fn(decoy).error_fn(f): every call must fail
+    [1 | (8 << 1), ONE, 0, 1000, 2000, 7, 5, 4, 0, 0, 100, 1, 1, 101, 0, 0, 102, 2, 0, 103],
+    # route 9 = error_fn(decoy).error_rate(1.0).name("x").error_fn(f)
+    [1 | (9 << 1), ONE, 0, 1000, 2000, 7, 5, 4, 0, 0, 100, 1, 1, 101, 0, 0, 102, 2, 0, 103],
+    # route 11: rate overwritten between the replacements, error rate 1/2 and latency
+    [1 | (11 << 1), HALF, HALF, 2000, 9000, 42, 20, 4, 0, 0, 100, 1, 1, 101, 0, 0, 102, 2, 0, 103],
+]
+
 
 def mk(flags, eb, lb, mn, mx, seed, tail, reqs):
     s = [flags, eb, lb, mn, mx, seed, tail, len(reqs)]
@@ -118,6 +135,8 @@ def corpus():
         mk(0, 0, 0, 1000, 2000, 5, 6, [(0, ik(0, 0, 3), 100), (1, ik(1, 0, 9), 101)]),  # slow inner, transparent
     ]
     out += [list(s) for s in REPRODUCERS_37727a1]
+    out += [list(s) for s in REPRODUCERS_7904406]
+    out.append(mk(1, HALF, HALF, 2000, 9000, 42, 20, [(0, 0, 100 + i) for i in range(40)]))   # 40 requests (review 2, D1)
     return out
 
 
@@ -174,7 +193,7 @@ def rand_req(rng, polls):
 
 def rand_script(rng, nmax=12):
     inj = 1 if rng.random() < 0.75 else 0
-    route = rng.randrange(8) if rng.random() < 0.6 else 0
+    route = rng.randrange(16) if rng.random() < 0.6 else 0
     eb, lb = rand_rate(rng), rand_rate(rng)
     mn, mx = rand_bounds(rng)
     seed = rng.choice([0, 1, 42, 2 ** 64 - 1, rng.getrandbits(64), rng.getrandbits(64), rng.getrandbits(20)])
@@ -194,7 +213,7 @@ def long_script(rng):
             for _ in range(n)]
     tail = rng.choice([max(lo, hi) + 10, max(lo, hi) + 10, min(lo, hi) + 1, 30])
     inj = rng.randrange(2)
-    return mk(inj | (rng.randrange(8) << 1), rng.choice([0, f2b(0.2)]), rng.choice([ONE, f2b(0.8)]),
+    return mk(inj | (rng.randrange(16) << 1), rng.choice([0, f2b(0.2)]), rng.choice([ONE, f2b(0.8)]),
               ms(lo), ms(hi), rng.getrandbits(64), tail, reqs)
 
 
@@ -237,17 +256,35 @@ def boundary_scripts(rng, k):
     return out
 
 
+def many_requests_script(rng):
+    """50-300 requests per instance (cheap: gaps 0/1 ms, virtual time): reproducibility far beyond the first dozen
+    decisions, e.g. a generator that is re-created every 16th decision"""
+    n = rng.randrange(50, 301)
+    polls = rng.random() < 0.4
+    reqs = []
+    for _ in range(n):
+        mode = rng.choice([0, 0, 0, 0, 1, 2]) if polls else 0
+        reqs.append((rng.choice([0, 0, 0, 1]), ik(rng.randrange(2), mode, rng.choice([0, 0, 2])), rng.randrange(-50, 1000)))
+    eb = rng.choice([HALF, f2b(0.3), f2b(0.05), f2b(0.9), ONE, 0])
+    lb = rng.choice([HALF, f2b(0.3), f2b(0.05), ONE, 0])
+    mn, mx = rng.choice([(0, 3000), (1000, 9000), (2000, 2000), (5000, 1000), (0, 0)])
+    inj = 1 if rng.random() < 0.8 else 0
+    return mk(inj | (rng.randrange(16) << 1), eb, lb, mn, mx, rng.getrandbits(64), rng.choice([0, 12]), reqs)
+
+
 def route_scripts(rng, k):
-    """every builder route x both injector kinds, same configuration and seed: the model ignores the route, so the
-    traces of the eight routes must all equal the model's"""
+    """every builder route x both injector kinds, same configuration and seed: every route configures the same
+    layer, so the traces of the sixteen routes must all equal the model's; error rate 1 in a third of the cells"""
     out = []
     r3 = [(0, 0, 10), (1, ik(1, 1), 11), (0, 0, 12), (2, ik(0, 0, 2), 13)]
-    for _ in range(k):
+    for j in range(k):
         eb, lb = rand_rate(rng), rand_rate(rng)
+        if j % 3 == 0:
+            eb = ONE
         mn, mx = rand_bounds(rng)
         sd = rng.getrandbits(64)
         for inj in (0, 1):
-            for route in range(8):
+            for route in range(16):
                 out.append(mk(inj | (route << 1), eb, lb, mn, mx, sd, 45, r3))
     return out
 
@@ -267,6 +304,8 @@ def generate(rng, tier):
                     out.append(mk(inj, eb, lb, mn, mx, rng.getrandbits(64), 8, r2))
     for _ in range(30 if tier == "quick" else 600):
         out.append(long_script(rng))
+    for _ in range(40 if tier == "quick" else 600):
+        out.append(many_requests_script(rng))
     n = 1200 if tier == "quick" else 40000
     for _ in range(n):
         out.append(rand_script(rng))
@@ -277,6 +316,7 @@ def extended(rng, mism):
     """search for a concrete failing input after a correspondence mismatch"""
     out = boundary_scripts(rng, 100) + route_scripts(rng, 60)
     out += [long_script(rng) for _ in range(200)]
+    out += [many_requests_script(rng) for _ in range(200)]
     out += [rand_script(rng) for _ in range(8000)]
     return out
 
@@ -336,6 +376,9 @@ def monitor(s, t):
     # (a) reproducible: two equally seeded instances, same order of requests -> same decisions, latencies, results
     if repro & 1 != 1:
         return "two equally seeded instances driven in lock-step diverged (decisions, latencies or outcomes differ)"
+    if repro & 4 != 4:
+        return ("an equally seeded instance given the same requests in the same order, but built at another instant, with "
+                "other gaps between the requests and other inner outcomes, made different decisions")
     er = clamp01(b2f(eb)) if inj else 0.0
     lr = clamp01(b2f(lb))
     # [min_latency, max_latency] in whole ms; bounds that are not whole ms (outside the quantifier) are widened
@@ -464,7 +507,10 @@ def rate_class(b, inj=1):
 
 
 def classify(s, t):
-    out = ["erate_" + rate_class(s[1], s[0] & 1), "lrate_" + rate_class(s[2]), "route_%d" % ((s[0] >> 1) & 7)]
+    out = ["erate_" + rate_class(s[1], s[0] & 1), "lrate_" + rate_class(s[2]), "route_%d" % ((s[0] >> 1) & 15)]
+    out.append("requests_" + ("le12" if s[7] <= 12 else "50to300"))
+    if s[0] & 1 and (s[0] >> 1) & 15 >= 8:
+        out.append("error_fn_replaced")
     lo, hi = floor_ms(s[3]), floor_ms(s[4])
     out.append("range_" + ("lt" if lo < hi else "eq" if lo == hi else "gt"))
     m = max(lo, hi)
